@@ -194,11 +194,13 @@ func rulesC07(e *Engine, r *Report) {
 	}
 
 	// ---------------------------------------------------------------- R07.5 / R07.6
-	r.Rule("R07.5", "the Sent record written during recovery is written only under !WasSent(name, hash, …) of the same polled file")
-	r.Rule("R07.6", "in recover() the verdict decides: finish() only under Waiting/Received; under NotFound and under Failed the file is appended to the send list; every arm of the verdict switch appends or finishes")
+	r.Rule("R07.5", "a positive answer at start-up counts only for a version that is on record as sent: in recover() finish() is reached only under Waiting/Received AND WasSent(name, hash, …) of the same polled file (the receiver answers for the name; the sent log is written when every byte of a version was acknowledged, before its first poll - without a record the answer is about an earlier version); a Sent record is not written after the fact")
+	r.Rule("R07.6", "in recover() the verdict decides: finish() only under Waiting/Received; under NotFound, under Failed, and under a positive answer for a version not on record as sent, the file is appended to the send list; every arm of the verdict switch appends or finishes")
 	if fn := needFn(e, r, "R07.5", "client.(*Broker).recover"); fn != nil {
+		wasSent := "invoke(sts.SendLogger.WasSent)(p0.Conf.Logger, invoke(sts.Polled.GetName)(§), invoke(sts.Polled.GetHash)(§), §)"
 		cls := labeler(
-			C("!invoke(sts.SendLogger.WasSent)(p0.Conf.Logger, invoke(sts.Polled.GetName)(§), invoke(sts.Polled.GetHash)(§), §)", "notYetLogged"),
+			C("!"+wasSent, "notYetLogged"),
+			C(wasSent, "onRecord"),
 			C("invoke(sts.Polled.Waiting)(§)", "confirmed"),
 			C("invoke(sts.Polled.Received)(§)", "confirmed"),
 			C("invoke(sts.Polled.NotFound)(§)", "notFound"),
@@ -206,9 +208,12 @@ func rulesC07(e *Engine, r *Report) {
 			I("store(var(send) = builtin(append)(var(send), §))", "queued"),
 			I("call(client.(*Broker).finish)(p0, §)", "finished"),
 		)
-		n := e.Guarded(r, "R07.5", "client.(*Broker).recover: Logger.Sent", fn, e.instrMatch("invoke(sts.SendLogger.Sent)(p0.Conf.Logger, §)"), cls,
-			func(l LabelSet) bool { return l.HasAll("notYetLogged", "confirmed") }, "!WasSent(name, hash, …) and the receiver confirmed the file")
-		r.Min("R07.5", "Sent records in recovery", n, 1)
+		n := e.Guarded(r, "R07.5", "client.(*Broker).recover: finish(f) only for a version on record as sent", fn, e.instrMatch("call(client.(*Broker).finish)(p0, §)"), cls,
+			func(l LabelSet) bool { return l.HasAll("onRecord", "confirmed") && !l.Has("notYetLogged") }, "WasSent(name, hash, …) and the receiver confirmed the file")
+		r.Min("R07.5", "finish() calls in recover()", n, 1)
+		sents := e.findInstrs(fn, "invoke(sts.SendLogger.Sent)(p0.Conf.Logger, §)", false)
+		r.Check(len(sents) == 0, "R07.5", "client.(*Broker).recover: no Sent record is written after the fact", e.Pos(fn.Pos()),
+			"recovery writes a sent-log record for a file on the strength of the receiver's answer about its name", 1)
 		n = e.Guarded(r, "R07.6", "client.(*Broker).recover: finish(f)", fn, e.instrMatch("call(client.(*Broker).finish)(p0, §)"), cls,
 			func(l LabelSet) bool { return l.Has("confirmed") && !l.HasAny("notFound", "failed") }, "Waiting() or Received() of the polled file")
 		r.Min("R07.6", "finish() calls in recover()", n, 1)
@@ -224,11 +229,14 @@ func rulesC07(e *Engine, r *Report) {
 				if l.HasAny("notFound", "failed") {
 					return l.Has("queued") && !l.Has("finished")
 				}
+				if l.Has("confirmed") && l.Has("notYetLogged") {
+					return l.Has("queued") && !l.Has("finished")
+				}
 				if l.Has("confirmed") {
 					return l.HasAll("queued", "finished")
 				}
 				return true
-			}, "NotFound/Failed → appended to the send list (not finished); Waiting/Received → placeholder appended and finished")
+			}, "NotFound/Failed/positive-but-not-on-record → appended to the send list (not finished); Waiting/Received of a version on record → placeholder appended and finished")
 		r.Min("R07.6", "back edges of the verdict loop", nb, 1)
 	}
 
